@@ -118,9 +118,21 @@ class RulesFamily(Family):
     name = "rules"
     options_menu = {"hmmdetection_strictness": ["relaxed", "strict", "loose"]}
 
+    def prepare(self, options):
+        rec = fresh_record(self.spec)
+        if self.spec.get("presub"):
+            # a subregion that exists before detection runs (sideloaded): its genes' hits are kept even outside protoclusters
+            wrap = K.L if self.spec["circ"] else None
+            for sub in SideloadedResults(rec.id, [SubRegionAnnotation(6, 141, "anchor", K.TOOL, {}, circular_origin=wrap)],
+                                         []).get_predicted_subregions():
+                rec.add_subregion(sub)
+        return rec
+
     def produce(self, options):
         rec = self.prepare(options)
         rule_results = _detect(rec, self.spec["rules"])
+        if self.spec.get("presub"):
+            assert rule_results.cdses_outside_clusters or self.spec["rules"] != "unmet", "universe: no outside hits"
         results = hmm_detection.HMMDetectionResults(rec.id, rule_results, list(real_rule_names(make_options())), "relaxed")
         make_options(dict(zip(self.options_menu, [v[0] for v in self.options_menu.values()])))
         add_areas(rec, results)
@@ -256,6 +268,9 @@ def objects(tier):
             for rules in ("single", "twins", "mixed", "separate"):
                 if tier == "thorough" or (quick_layout and (rules in ("twins", "mixed") or layout == "plain")):
                     out.append(["rules", {"circ": circ, "layout": layout, "rules": rules}])
+            for rules in ("unmet", "separate", "mixed"):
+                if tier == "thorough" or layout in ("plain", "origin"):
+                    out.append(["rules", {"circ": circ, "layout": layout, "rules": rules, "presub": True}])
             for variant in ("sub", "proto", "both", "twin-sub", "origin-sub"):
                 if variant == "origin-sub" and not circ:
                     continue
